@@ -81,7 +81,8 @@ func mkValue(seed uint32, n int) []byte {
 	return b
 }
 
-var valueSizes = []int{0, 1, 2, 7, 30, 1500, 5000}
+// 1095..1097 and 2192 sit on the chunk payload boundaries of one-byte keys (payload 1096)
+var valueSizes = []int{0, 1, 2, 7, 30, 1095, 1096, 1097, 1500, 2192, 5000}
 
 func genValue(t *rapid.T, label string) []byte {
 	size := rapid.SampledFrom(valueSizes).Draw(t, label+"Size")
